@@ -200,7 +200,9 @@ def run(ctx):
     r = ctx.rule("R7", "bootstrap: one request per connection and the connection is always dropped afterwards", 1, "B")
     sb = ctx.func("client:KafkaClient._send_bootstrap_request")
     cb = ctx.cfg(sb)
-    reqs = [n for n in cb.nodes if any(call_name(c) == "request" and call_recv(c) == "protocol" for c in n.calls())]
+    from .util import bootstrap_names
+    epv, prv = bootstrap_names(sb)
+    reqs = [n for n in cb.nodes if any(call_name(c) == "request" and call_recv(c) == prv for c in n.calls())]
     drops = [n.id for n in cb.nodes if any(call_name(c) == "loseConnection" for c in n.calls())]
     loop = [n for n in cb.nodes if n.kind == "for"]
     ok = len({n.stmt for n in reqs}) == 1 and bool(drops) and bool(loop)
